@@ -743,9 +743,21 @@ impl Engine {
 
     fn hook_native(&self, who: &HookWho) -> String {
         match who {
-            HookWho::Staker => self.m.cfg.staker.clone(),
-            HookWho::Collector => self.m.cfg.collector.clone(),
+            HookWho::Staker | HookWho::StakerDirect => self.m.cfg.staker.clone(),
+            HookWho::Collector | HookWho::CollectorDirect => self.m.cfg.collector.clone(),
             HookWho::Other(i) => self.a.natives[*i as usize % self.a.natives.len()].clone(),
+        }
+    }
+
+    /// ibc-hooks delivery, or (for the `*Direct` selectors) a plain local call by the native address itself
+    fn hook_call(&mut self, who: &HookWho, channel: &str, native_sender: &str, denom: &str, amount: u128, msg: ExecuteMsg) -> (String, TxOutcome) {
+        if matches!(who, HookWho::StakerDirect | HookWho::CollectorDirect) {
+            self.ch.faucet(native_sender, denom, amount);
+            self.stats.flags.insert("native_address_as_local_sender");
+            let out = self.ch.execute(native_sender, &[Coin::new(amount, denom)], msg);
+            (native_sender.to_string(), out)
+        } else {
+            self.ch.hooks_execute(channel, native_sender, denom, amount, msg)
         }
     }
 
@@ -776,7 +788,8 @@ impl Engine {
         let now = self.ch.now_s();
         // reference derivation from the *configuration* (what the property says is accepted)
         let accepted = hooks_sender(&self.m.cfg.channel, &self.m.cfg.staker, &self.m.cfg.pprefix);
-        let actual = hooks_sender(&channel, &native_sender, &self.a.pprefix);
+        let direct = matches!(who, HookWho::StakerDirect | HookWho::CollectorDirect);
+        let actual = if direct { native_sender.clone() } else { hooks_sender(&channel, &native_sender, &self.a.pprefix) };
         let due = mb.as_ref().and_then(|b| b.due);
         let (exp, tags): (Expect, Vec<&'static str>) = if self.m.halted {
             (Expect::Err, vec!["C10"])
@@ -797,8 +810,9 @@ impl Engine {
                 self.stats.flags.insert("deliver_at_boundary");
             }
         }
-        let before = self.bank_snapshot();
-        let (inter, out) = self.ch.hooks_execute(&channel, &native_sender, denom, amount, ExecuteMsg::ReceiveUnstakedTokens { batch_id: id });
+        let before0 = self.bank_snapshot();
+        let (inter, out) = self.hook_call(who, &channel, &native_sender, denom, amount, ExecuteMsg::ReceiveUnstakedTokens { batch_id: id });
+        let before = if direct { let mut b = before0; *b.entry((native_sender.clone(), denom.to_string())).or_insert(0) += amount; b } else { before0 };
         let what = format!("DeliverUnstaked batch={id} amount={amount} from={native_sender} via={channel} denom_ok={} hook={inter} now={now} due={due:?}", !wrong_denom);
         self.note(format!("{what} -> {}", out.ok));
         self.stats.bump(if out.ok { "Deliver.ok" } else { "Deliver.err" });
@@ -863,7 +877,8 @@ impl Engine {
         let channel = if other_channel { self.a.other_channel.clone() } else { self.ch.channel.clone() };
         let denom = if wrong_denom { OTHER_DENOM } else { STAKED_DENOM };
         let accepted = hooks_sender(&self.m.cfg.channel, &self.m.cfg.collector, &self.m.cfg.pprefix);
-        let actual = hooks_sender(&channel, &native_sender, &self.a.pprefix);
+        let direct = matches!(who, HookWho::StakerDirect | HookWho::CollectorDirect);
+        let actual = if direct { native_sender.clone() } else { hooks_sender(&channel, &native_sender, &self.a.pprefix) };
         let fee = mul_div_floor(self.m.cfg.fee_rate, r, 100_000);
         let (exp, tags): (Expect, Vec<&'static str>) = if self.m.halted {
             (Expect::Err, vec!["C10"])
@@ -888,8 +903,9 @@ impl Engine {
         if fail {
             self.ch.fail_transfer = Some(0);
         }
-        let before = self.bank_snapshot();
-        let (inter, out) = self.ch.hooks_execute(&channel, &native_sender, denom, r, ExecuteMsg::ReceiveRewards {});
+        let before0 = self.bank_snapshot();
+        let (inter, out) = self.hook_call(who, &channel, &native_sender, denom, r, ExecuteMsg::ReceiveRewards {});
+        let before = if direct { let mut b = before0; *b.entry((native_sender.clone(), denom.to_string())).or_insert(0) += r; b } else { before0 };
         let what = format!("DeliverRewards r={r} from={native_sender} via={channel} denom_ok={} hook={inter} fee_rate={} treasury={:?} fail={fail}", !wrong_denom, self.m.cfg.fee_rate, self.m.cfg.treasury);
         self.note(format!("{what} -> {}", out.ok));
         self.stats.bump(if out.ok { "Rewards.ok" } else { "Rewards.err" });
@@ -1633,6 +1649,9 @@ impl Engine {
                 }
                 if self.m.nominee.is_some() {
                     self.stats.flags.insert("renominated");
+                    if self.m.nominee.as_deref() != Some(new_owner.as_str()) {
+                        self.m.superseded = self.m.nominee.clone();
+                    }
                 }
                 self.m.nominee = Some(new_owner);
                 self.m.earliest = Some(now + WEEK);
@@ -1651,6 +1670,7 @@ impl Engine {
                 }
                 if self.m.nominee.is_some() {
                     self.stats.flags.insert("revoked");
+                    self.m.superseded = self.m.nominee.clone();
                 }
                 self.m.nominee = None;
                 self.m.earliest = None;
